@@ -45,17 +45,20 @@ CHECKS = {
          "deterministic simulation: generated spec histories through one stateful cleaner x configuration x per-spec exemptions, each run replicated under a second hash seed; history-dependent non-leak oracle"),
  "C09": ("w3", "3.C09", "differential oracle over whole histories: every input line rebuilt with the mapping the cleaner reports must equal the cleaner's "
          "output across all specs; injectivity; no phantom originals; the facts file written by generate_rhsm_facts carries the same pairs; separate "
-         "collision regime plants originals equal to issued substitutes, mac-chain regime an original MAC equal to the substitute of another",
+         "collision regime plants originals equal to issued substitutes, mac-chain regime an original MAC equal to the substitute of another; "
+         "IPv6 addresses in several notations (same address, same substitute address); width-mode specs; another cleaner built mid-history",
          "deterministic simulation: recurrence-forcing histories through one stateful cleaner; differential oracle against the reported mapping + reference reconstruction"),
  "C10": ("w3", "3.C10", "every case executed by two interpreters that differ only in PYTHONHASHSEED (the schedule this property quantifies over) and "
          "compared; application order of the obfuscators observed per line and required to follow one total order; marker-based order / one-to-one / "
          "empty-collapse checks (content list, single string and file entry points); concurrent callers of one Cleaner compared with the same calls "
-         "one after the other; end-to-end share: the same collection three times in one process must store the same content",
+         "one after the other; end-to-end share: the same collection three times in one process must store the same content, filter budgets that "
+         "run out compared across hash seeds; MAX_LINE_LENGTH as a knob; a fresh cleaner probed before and after a history",
          "deterministic simulation: the process hash seed as the schedule (each case under >= 2 seeds, 16 seeds per batch), instrumented application order; cross-run equality"),
  "C11": ("w2", "3.C11", "collect into an archive, then load it with the real initialize_broker/hydrate in a fresh broker; fault sequences during persist "
          "(n-th write-open / mkdir fails with ENOSPC/EIO via audit hook, data write fails or is silently cut after k bytes, metadata dump fails midway) "
          "and corruption of any subset of stored entries between the two phases; strict field-by-field round trip for untouched entries, 'may be absent, "
-         "never wrong' for damaged ones, load never raises; contents up to 24577 lines, user provider sub-classes",
+         "never wrong' for damaged ones, load never raises; contents up to 24577 lines, user provider sub-classes; histories: the archive directory "
+         "used twice, the archive loaded through a re-pointed link",
          "deterministic simulation with fault injection: I/O faults at the n-th syscall during persist + torn/short writes + corruption of stored state between collect and load; round-trip oracle against what was persisted"),
  "C12": ("w1r", "3.C12", "generated rule sets (shared modules/keys/types, every return kind and constructor-argument shape, payloads around "
          "the size limit) under the real SingleEvaluator / InsightsEvaluator / JsonFormat, serial, incremental and on SimPool with seeded "
